@@ -43,7 +43,7 @@ func TestVerifC21(t *testing.T) {
 		"the model follows the accept/reject outcome of the database; packing of values is trusted (C13)")
 	defer rep.Finish()
 	dbhist.Setup()
-	n := vk.N(320, 10000)
+	n := vk.N(1200, 20000)
 	only := -1
 	if s := os.Getenv("VERIF_ONLY_CASE"); s != "" {
 		fmt.Sscan(s, &only)
@@ -94,6 +94,17 @@ func runHistory(rep *vk.Report, idx int) {
 			prev = dbhist.TakeSnap(real.DB)
 			if d := prev.DiffModel(h.M); len(d) > 0 {
 				rep.Violate("C21/data-differs-from-model-after-transaction/"+kindOf2(d[0]), key, map[string]any{"diff": d, "history": h.Tail(300)})
+				return
+			}
+		}
+		if idx%2 == 1 && r.IntN(5) == 0 {
+			// in every second history the metadata is persisted now and then (a persisted schema takes other paths:
+			// tombstones, the metadata clock), which must not change anything the exported API shows
+			h.Persist()
+			rep.Count("persists_between_requests", 1)
+			after := dbhist.TakeSnap(real.DB)
+			if d := prev.Diff(after); len(d) > 0 {
+				rep.Violate("C21/persist-changed-state", key, map[string]any{"diff": d, "history": h.Tail(300)})
 				return
 			}
 		}
